@@ -1,6 +1,7 @@
 package props
 
 import (
+	"context"
 	"fmt"
 	"io"
 	"sync"
@@ -53,6 +54,7 @@ type c20Chan struct {
 	excs          []error
 	panicEv       bool
 	closeInActive bool
+	preCancelled  bool
 	farewell      bool
 	heartbeat     bool
 	feed          func([]byte)
@@ -114,7 +116,7 @@ func (b *c20Before) HandleWrite(ctx netty.OutboundContext, message netty.Message
 type c20After struct{ ch *c20Chan }
 
 func (a *c20After) HandleActive(ctx netty.ActiveContext) {
-	if a.ch.closeInActive {
+	if a.ch.closeInActive && !a.ch.preCancelled {
 		// a handler behind the idle handler rejects the connection during activation
 		ctx.Close(errSentinel)
 	}
@@ -268,6 +270,7 @@ func c20Channel(c *core.Ctx, id string, idx int, idle time.Duration) {
 	rng := c.Rand("chan", idx)
 	st := &c20Chan{id: id, read: idx%2 == 0, idle: idle, checks: map[int64]time.Time{}, panicEv: rng.Intn(5) == 0}
 	st.closeInActive = idx%10 == 7 || idx%10 == 2
+	preCancelled := idx%10 == 6                                   // the channel context ended while the channel was being set up; a holder sits in front
 	st.farewell = idx%4 == 1                                      // write-idle channels (odd idx)
 	st.heartbeat = idx%5 == 3                                     // both kinds
 	slowWriteTrial := !st.read && idx%3 == 0 && !st.closeInActive // sync-mode write-idle channels: one write stalls in the transport across the timer's expiry
@@ -291,8 +294,17 @@ func c20Channel(c *core.Ctx, id string, idx int, idle time.Duration) {
 		// write-idle: A must be <= the handler's own start; take it just before the channel is served
 		st.A = time.Now()
 	}
-	rig := mon.NewRig(mon.RigOpts{Mode: mon.Mode(idx % 3), Queue: 8, NoPark: true, NoHooks: true,
-		Handlers: []netty.Handler{before, h, after, c20Reader{}}})
+	opts := mon.RigOpts{Mode: mon.Mode(idx % 3), Queue: 8, NoPark: true, NoHooks: true,
+		Handlers: []netty.Handler{before, h, after, c20Reader{}}}
+	if preCancelled {
+		pctx, cancel := context.WithCancel(context.Background())
+		cancel()
+		opts.Ctx = pctx
+		opts.Handlers = append([]netty.Handler{netty.NewChannelHolder(1)}, opts.Handlers...)
+		st.closeInActive = true // judged like a channel closed during activation: no idle period may be timed afterwards
+		st.preCancelled = true
+	}
+	rig := mon.NewRig(opts)
 	defer rig.Dispose()
 	st.feed = rig.T.FeedBytes
 	rig.T.OnOp = func(kind string, phase int) {
@@ -330,7 +342,10 @@ func c20Channel(c *core.Ctx, id string, idx int, idle time.Duration) {
 		if late >= 2 {
 			c.Violation("C20:timer-not-released-after-inactive", id, fmt.Sprintf("%d timer callbacks ran more than one idle period after inactive %s", late, what), nil)
 		}
-		c.Sig("close-in-active", st.read, len(st.allCheck) > 0)
+		c.Sig("close-in-active", st.read, len(st.allCheck) > 0, st.preCancelled)
+		if st.preCancelled {
+			c.Count("channels_activated_with_ended_context", 1)
+		}
 		return
 	}
 	pass := func() {
